@@ -60,3 +60,14 @@ Proof. destruct s as [[n|] [m|]]; reflexivity. Qed.
 (* pth_assign_spectrum, one request: the skip / NOT_ENOUGH_RESERVED_SPECTRUM / NO_SPECTRUM / commit decisions *)
 Lemma gen_pth_assign_one p st rq : g_pth_assign_one p st rq = pth_assign_one p st rq.
 Proof. reflexivity. Qed.
+
+(* determine_slot_numbers: the condition of its growing loop; spectrum_selection with a free N: the condition of the
+   candidate comprehension and the centre of a candidate (Python's short-circuit `and`, partial list lookups) *)
+Lemma gen_dsn_cond b c i req : g_dsn_cond b c i req = dsn_cond b c i req.
+Proof. reflexivity. Qed.
+
+Lemma gen_cand_ok b m i : g_cand_ok b m i = cand_ok b m i.
+Proof. reflexivity. Qed.
+
+Lemma gen_cand_centre b m i : g_cand_centre b m i = (let* v := idx_at b i in Ok (v + m)).
+Proof. reflexivity. Qed.
